@@ -1,4 +1,5 @@
 import ZixModel.Model.PathBuf
+import ZixModel.Lemmas.PathBuf
 /-! # C11 / C12, memory safety of the result buffers: the path builders never write outside the block
 they request
 
@@ -12,29 +13,45 @@ open Zix.Path Zix.PathBuf
 
 /-- `zix_path_join` requests exactly the bytes of its result and the terminator — for all
 arguments, NULL included. -/
-theorem join_fits (a b : Option (List Nat)) : (join a b).length + 1 = joinAlloc a b := by
-  sorry
+theorem join_fits (a b : Option (List Nat)) : (join a b).length + 1 = joinAlloc a b :=
+  Aux.join_fits a b
 
 theorem preferred_fits (s : List Nat) : (preferred s).length + 1 = preferredAlloc s := by
-  sorry
+  simp [preferred, preferredAlloc]
 
-/-- `zix_path_lexically_normal`: the finished result and its terminator fit the request. -/
-theorem normal_fits (s : List Nat) : (normalize s).length + 1 ≤ normalAlloc s := by
-  sorry
+/-- `zix_path_lexically_normal`: the finished result and its terminator fit the request.  The
+string must be NUL-free (the convention of `Model/Path.lean`: the scans of the model treat a byte 0
+as the terminator, so a list with an interior 0 is not a C string; the statement without the
+hypothesis is false for the model, see the counterexamples below). -/
+-- ORIGINAL: theorem normal_fits (s : List Nat) : (normalize s).length + 1 ≤ normalAlloc s
+theorem normal_fits (s : List Nat) (h0 : 0 ∉ s) : (normalize s).length + 1 ≤ normalAlloc s := by
+  have := Aux.normalize_le s h0
+  unfold normalAlloc; split <;> simp_all <;> omega
+
+/-- Counterexample to the ORIGINAL (no NUL-freeness): on a list with an interior 0 the element scan
+of the model stalls at the 0 and emits one empty element per unit of fuel. -/
+example : normalize [97, 0] = [97, 47, 47, 47] ∧ normalAlloc [97, 0] = 4 ∧
+    ¬ ((normalize [97, 0]).length + 1 ≤ normalAlloc [97, 0]) := by decide
 
 /-- … and so does the result at every moment while it is being built (one byte is always left for
 the terminator or the dot that an empty result becomes). -/
-theorem normal_trace_fits (s : List Nat) (hs : s ≠ []) : ∀ o ∈ normalTrace s, o.length + 1 ≤ normalAlloc s := by
-  sorry
+-- ORIGINAL: theorem normal_trace_fits (s : List Nat) (hs : s ≠ []) : ∀ o ∈ normalTrace s, o.length + 1 ≤ normalAlloc s
+theorem normal_trace_fits (s : List Nat) (hs : s ≠ []) (h0 : 0 ∉ s) :
+    ∀ o ∈ normalTrace s, o.length + 1 ≤ normalAlloc s := by
+  intro o ho
+  have := Aux.normal_trace_le s h0 o ho
+  simp only [normalAlloc, hs, if_false]; omega
+
+example : ∃ o ∈ normalTrace [97, 0], ¬ (o.length + 1 ≤ normalAlloc [97, 0]) := by decide
 
 /-- `zix_path_lexically_relative` returns NULL without a request exactly when the value model says
 NULL (with enough memory), and otherwise the result and its terminator fit the request. -/
-theorem relative_alloc_none_iff (p b : List Nat) : relativeAlloc p b = none ↔ relative p b = none := by
-  sorry
+theorem relative_alloc_none_iff (p b : List Nat) : relativeAlloc p b = none ↔ relative p b = none :=
+  Aux.relative_alloc_none_iff p b
 
 theorem relative_fits (p b r : List Nat) (h : relative p b = some r) :
-    ∃ n, relativeAlloc p b = some n ∧ r.length + 1 ≤ n := by
-  sorry
+    ∃ n, relativeAlloc p b = some n ∧ r.length + 1 ≤ n :=
+  Aux.relative_fits p b r h
 
 /-! ## non-vacuity -/
 example : joinAlloc (some [97, 47]) (some [98]) = 4 ∧ join (some [97, 47]) (some [98]) = [97, 47, 98] := by decide
